@@ -499,6 +499,17 @@ func (t *tr) retExpr(c *fnCtx, es []ast.Expr, at ast.Node) string {
 		return fmt.Sprintf("let '(%s) := %s in %s", strings.Join(names, ", "), t.expr(es[0]), t.wrapRet(c, names))
 	} else {
 		if len(es) == 1 {
+			// short-circuit operators whose right operand needs statement-level plumbing (fuel / mutation)
+			if be, ok := es[0].(*ast.BinaryExpr); ok && (be.Op == token.LAND || be.Op == token.LOR) && t.needsStmtCall(be.Y) {
+				rhs := t.retExpr(c, []ast.Expr{be.Y}, at)
+				if be.Op == token.LAND {
+					return fmt.Sprintf("if %s then (%s) else (%s)", t.expr(be.X), rhs, t.wrapRet(c, []string{"false"}))
+				}
+				return fmt.Sprintf("if %s then (%s) else (%s)", t.expr(be.X), t.wrapRet(c, []string{"true"}), rhs)
+			}
+			if pe, ok := es[0].(*ast.ParenExpr); ok {
+				return t.retExpr(c, []ast.Expr{pe.X}, at)
+			}
 			if ce, ok := es[0].(*ast.CallExpr); ok {
 				k := t.calleeKey(ce)
 				if k != "" && t.want[k] && (t.fuelFns[k] || len(t.mutates[k]) > 0) {
@@ -512,6 +523,20 @@ func (t *tr) retExpr(c *fnCtx, es []ast.Expr, at ast.Node) string {
 		}
 	}
 	return t.wrapRet(c, parts)
+}
+
+// needsStmtCall reports whether e contains a call to a fuel-consuming or slice-mutating function.
+func (t *tr) needsStmtCall(e ast.Expr) bool {
+	found := false
+	ast.Inspect(e, func(n ast.Node) bool {
+		if ce, ok := n.(*ast.CallExpr); ok {
+			if k := t.calleeKey(ce); k != "" && t.want[k] && (t.fuelFns[k] || len(t.mutates[k]) > 0) {
+				found = true
+			}
+		}
+		return true
+	})
+	return found
 }
 
 func (t *tr) wrapRet(c *fnCtx, parts []string) string {
@@ -1172,19 +1197,54 @@ func (t *tr) switchStmt(c *fnCtx, x *ast.SwitchStmt, after []ast.Stmt, k string,
 		init += fmt.Sprintf("let %s := %s in%s", tname, t.expr(x.Tag), nl)
 		tag = tname
 	}
+	// clauses with `fallthrough`: bind every clause body as a local continuation, last clause first
+	hasFT := false
+	for _, cl := range x.Body.List {
+		cc := cl.(*ast.CaseClause)
+		if n := len(cc.Body); n > 0 {
+			if bs, ok := cc.Body[n-1].(*ast.BranchStmt); ok && bs.Tok == token.FALLTHROUGH {
+				hasFT = true
+			}
+		}
+	}
+	clauseK := map[int]string{} // clause index -> expression running that clause's body
+	ftPrefix := ""
+	if hasFT {
+		vars := t.assignedOuter(x)
+		n := len(x.Body.List)
+		defs := make([]string, n)
+		for i := n - 1; i >= 0; i-- {
+			cc := x.Body.List[i].(*ast.CaseClause)
+			body := cc.Body
+			k2 := restExpr
+			if m := len(body); m > 0 {
+				if bs, ok := body[m-1].(*ast.BranchStmt); ok && bs.Tok == token.FALLTHROUGH {
+					body = body[:m-1]
+					if i+1 >= n {
+						t.fail(bs, "fallthrough in the last clause")
+					}
+					k2 = clauseK[i+1]
+				}
+			}
+			bexpr := t.caseBody(c, body, k2, depth+1)
+			p, call := t.join(c, vars, bexpr, depth)
+			defs[i] = p
+			clauseK[i] = call
+		}
+		for i := n - 1; i >= 0; i-- {
+			ftPrefix += defs[i]
+		}
+	}
 	var deflt *ast.CaseClause
+	defltIdx := -1
 	out := ""
 	closing := ""
-	for _, cl := range x.Body.List {
+	for ci, cl := range x.Body.List {
 		cc := cl.(*ast.CaseClause)
 		if cc.List == nil {
 			deflt = cc
+			defltIdx = ci
 			continue
-		}
-		for _, s := range cc.Body {
-			if bs, ok := s.(*ast.BranchStmt); ok && bs.Tok == token.FALLTHROUGH {
-				t.fail(bs, "fallthrough")
-			}
 		}
 		var conds []string
 		for _, e := range cc.List {
@@ -1198,19 +1258,28 @@ func (t *tr) switchStmt(c *fnCtx, x *ast.SwitchStmt, after []ast.Stmt, k string,
 		if len(conds) > 1 {
 			cond = "(" + cond + ")"
 		}
-		body := t.caseBody(c, cc.Body, restExpr, depth+1)
+		body := ""
+		if hasFT {
+			body = clauseK[ci]
+		} else {
+			body = t.caseBody(c, cc.Body, restExpr, depth+1)
+		}
 		out += fmt.Sprintf("if %s then%s  (%s)%selse ", cond, nl, body, nl)
 		closing += ""
 	}
 	if deflt != nil {
-		out += "(" + t.caseBody(c, deflt.Body, restExpr, depth+1) + ")"
+		if hasFT {
+			out += "(" + clauseK[defltIdx] + ")"
+		} else {
+			out += "(" + t.caseBody(c, deflt.Body, restExpr, depth+1) + ")"
+		}
 	} else {
 		if restExpr == "" {
 			t.fail(x, "switch without default cannot fall through here")
 		}
 		out += "(" + restExpr + ")"
 	}
-	return prefix + init + out + closing
+	return prefix + init + ftPrefix + out + closing
 }
 
 func (t *tr) caseBody(c *fnCtx, body []ast.Stmt, k string, depth int) string {
